@@ -565,6 +565,7 @@ struct Prog {
       case 4: { m.cut = (int) t.range(0, 2); m.piv = (int) t.range(0, 1); c.log << "  set_control_parameter cut " << m.cut << " piv " << m.piv << "\n"; P.p->set_control_parameter(cutv(m.cut)); P.p->set_control_parameter(pivv(m.piv)); break; }
       case 5: { // big parameter on a parameter added after the last solve
         if (m.big >= 0) break; long cand = -1; for (size_t j = solved_dims; j < m.n; ++j) if (m.par[j]) cand = (long) j; if (cand < 0) break;
+        { bool used = false; for (const Row& r : m.rows) if (r.a.size() > (size_t) cand && r.a[cand] != 0) used = true; if (used) break; }   // the big parameter is only claimed in the documented x' = x + M form
         c.log << "  set_big_parameter_dimension(" << nm(cand) << ")\n"; P.p->set_big_parameter_dimension((dimension_type) cand); m.big = cand; dirty = true; ++mutations; break; }
       case 6: { // documented rejection: an already solved variable cannot become a parameter
         if (solved_dims == 0) break; std::vector<size_t> sv; for (size_t j = 0; j < solved_dims; ++j) if (!m.par[j]) sv.push_back(j); if (sv.empty()) break;
